@@ -280,7 +280,7 @@ def run(ctx):
                                    steps=steps, what="%s: %s [modes %s, steps %s, at step %s]" % (
                                        sh["text"], "; ".join(hard.values()), json.dumps(b["cfg"]["mode"], sort_keys=True), steps, at)))
         # ---- C11: declared static traits of every shape (read from the code at build time) vs. all behaviours of the shape
-        if prop in ("C11", "C20"):
+        if prop == "C11":
             rc, so, se = vlib.run_exe(exe, ["--traits"], timeout=120)
             traits = json.loads(so.strip().splitlines()[-1]) if rc == 0 and so.strip() else {}
             BK = {0: "always_inline", 1: "always", 2: "maybe", 3: "never"}
